@@ -108,6 +108,9 @@ type respClient struct {
 	TransientEOF bool
 	// TransientFor > 0: the (0, io.EOF) reads go on for that long before the stream continues
 	TransientFor time.Duration
+	// Bystander: a second goroutine waits in a blocking receive on another (logical) channel of the connection
+	// while the exchange runs; nothing is ever sent to that channel. What the transport does concerns it too.
+	Bystander bool
 	// Render: the consumer uses what it receives the way a driver does: String() of every package and of every
 	// row / parameter value (direct calls: fmt would recover a panic).
 	Render bool
@@ -131,6 +134,11 @@ type respResult struct {
 	TwinPkgs  int
 	Peer      *TDSPeer
 	ReaderEnd bool
+	// the bystander's receive: whether it returned, when, and with what
+	BystanderDone bool
+	BystanderAt   time.Duration
+	BystanderErr  string
+	BystanderPkg  string
 }
 
 func flat(pkts [][]byte) []byte {
@@ -281,6 +289,23 @@ func runResp(cfg simrt.Config, d respDelivery, c respClient) *respResult {
 		}
 		ctx, cancel := simrt.WithTimeout(context.Background(), c.DrainFor)
 		defer cancel()
+		if c.Bystander {
+			chB, err := conn.NewChannel()
+			if err != nil {
+				res.ConnErr = "bystander channel: " + err.Error()
+				return
+			}
+			by := simrt.Spawn("bystander", func() {
+				pkg, err := chB.NextPackage(ctx, true)
+				res.BystanderDone, res.BystanderAt = true, simrt.SimNow()
+				if err != nil {
+					res.BystanderErr = err.Error()
+				} else {
+					res.BystanderPkg = fmt.Sprintf("%T", pkg)
+				}
+			})
+			defer simrt.Join(by)
+		}
 		if c.Hooks {
 			ch.RegisterEEDHooks(func(e tds.EEDPackage) {
 				r := PkgRec{Dump: "HOOK " + Dump(e), Type: "hook:eed", Now: simrt.SimNow()}
